@@ -549,3 +549,48 @@ Lemma toy_ser_bytes v : bytesP (toy_ser v).
 Proof. apply Forall_forall. intros c Hc. apply repeat_spec in Hc. subst c. lia. Qed.
 Lemma toy_deser_ser v : toy_deser (toy_ser v) = Ok v.
 Proof. unfold toy_deser, toy_ser. rewrite repeat_length. reflexivity. Qed.
+
+(* ------------------------------------------- pair level: (salt, secret) vs key *)
+(* What the theorems above call "another key" is another KEY OCTET STRING giving another tag.  At the level of
+   (salt, secret) PAIRS the claim "a token of a different pair is rejected" is false: the key is the plain
+   concatenation of the encoded parts, so distinct pairs can share one key. *)
+
+(* keys that the mac does not distinguish (HMAC: keys equal up to trailing NULs; a key longer than the block and
+   its hash) are one key for dumps/loads *)
+Lemma equivalent_keys_accepted (V : Type) (mac : bytes -> bytes -> bytes) (dsize : nat) (ser : V -> bytes)
+      (deser : bytes -> res V) (k1 k2 : bytes) :
+  (forall k m, length (mac k m) = dsize) -> (forall v, deser (ser v) = Ok v) ->
+  (forall k m, bytesP (mac k m)) -> (forall v, bytesP (ser v)) ->
+  (forall m, mac k1 m = mac k2 m) ->
+  forall v, signed_loads V mac dsize deser k2 (signed_dumps V mac ser k1 v) = Ok v.
+Proof.
+  intros ML DS MB SB E v.
+  replace (signed_dumps V mac ser k1 v) with (signed_dumps V mac ser k2 v)
+    by (unfold signed_dumps; rewrite E; reflexivity).
+  apply roundtrip; assumption.
+Qed.
+
+(* the pair-level statement, refuted by computation: salt "a" + secret "bc" and salt "ab" + secret "c" *)
+Lemma pair_level_refuted_boundary :
+  exists salt1 secret1 salt2 secret2 key,
+    (salt1, secret1) <> (salt2, secret2) /\
+    salted_secret salt1 secret1 = Some key /\ salted_secret salt2 secret2 = Some key /\
+    forall (V : Type) (mac : bytes -> bytes -> bytes) (dsize : nat) (ser : V -> bytes) (deser : bytes -> res V),
+      (forall k m, length (mac k m) = dsize) -> (forall v, deser (ser v) = Ok v) ->
+      (forall k m, bytesP (mac k m)) -> (forall v, bytesP (ser v)) ->
+      forall v, signed_loads V mac dsize deser key (signed_dumps V mac ser key v) = Ok v.
+Proof.
+  exists [97], [98; 99], [97; 98], [99], [97; 98; 99].
+  split; [discriminate|]. split; [reflexivity|]. split; [reflexivity|].
+  intros V mac dsize ser deser ML DS MB SB v. apply roundtrip; assumption.
+Qed.
+
+(* same secret "b", two different salts: U+03B1 (utf-8 fallback: CE B1) and the latin-1 text U+00CE U+00B1 *)
+Lemma pair_level_refuted_encoding :
+  exists salt1 salt2 secret key,
+    salt1 <> salt2 /\
+    salted_secret salt1 secret = Some key /\ salted_secret salt2 secret = Some key.
+Proof.
+  exists [945], [206; 177], [98], [206; 177; 98].
+  split; [discriminate|]. split; reflexivity.
+Qed.
